@@ -46,3 +46,56 @@ assert a in s
 s=s.replace(a,a+"""
 	b.WriteString(AddIndent4ln("-- fields in declaration order"))""")
 open(p,"w").write(s)' C15 C02 C07 C11 C14
+echo "=== 6 formatter: object field line built by a helper with strings.Join (the correct version of seed C09f)"
+run objhelper 'import subprocess
+subprocess.check_call(["git","apply","/verif/seeded/C09f/patch.diff"])
+p="internal/parser/packet_dsl_formattor.go"; s=open(p).read()
+a="""		parts = append(parts, name.GetText())
+		if doc := c.STRING_LITERAL(); doc != nil {
+			parts = append(parts, v.docText(doc))
+		}
+	}
+"""
+assert a in s
+s=s.replace(a,"""		parts = append(parts, name.GetText())
+	}
+	if doc := c.STRING_LITERAL(); doc != nil {
+		parts = append(parts, v.docText(doc))
+	}
+""")
+open(p,"w").write(s)' C09 C10 C11
+echo "=== 7 model builder: type text held in a local; cycle check with its early returns swapped"
+run typetext 'p="internal/parser/packet_dsl_parser.go"; s=open(p).read()
+a="""	var attr model.FieldAttribute
+	if ctx.Type_().BasicType() != nil {
+		attr = &model.BasicFieldAttribute{
+			Type: ctx.Type_().GetText(),
+		}"""
+assert a in s
+s=s.replace(a,"""	var attr model.FieldAttribute
+	typeText := ctx.Type_().GetText()
+	if ctx.Type_().BasicType() != nil {
+		attr = &model.BasicFieldAttribute{
+			Type: typeText,
+		}""",1)
+open(p,"w").write(s)
+p="internal/model/model.go"; s=open(p).read()
+a="""	if state[p] == 1 {
+		return true
+	}
+	if state[p] == 2 {
+		return false
+	}"""
+assert a in s
+s=s.replace(a,"""	if state[p] == 2 {
+		return false
+	}
+	if state[p] == 1 {
+		return true
+	}""")
+open(p,"w").write(s)' C08 C12 C11
+echo "=== 8 go generator: length-of back-patch with a comment line and a renamed position variable"
+run lenrename 'p="internal/parser/go_generator.go"; s=open(p).read()
+assert "Pos := buf.Len()" in s
+s=s.replace("Pos := buf.Len()","Slot := buf.Len()").replace("Pos:","Slot:").replace("Pos + ","Slot + ")
+open(p,"w").write(s)' C04 C01
